@@ -66,6 +66,8 @@ def run(chk, build, replay=None):
         srcs = replayed
     else:
         srcs += EXTRA
+        from harness import features as _features
+        srcs += list(_features.PROGRAMS.values())
         nfiles = 80 if chk.tier == "quick" else None
         for fn, s in corpus.stripped_stdlib_sources(nfiles, seed=chk.seed + 5):
             srcs.append(s)
